@@ -725,7 +725,7 @@ pub fn gen_c20(rng: &mut Rng, tier: Tier) -> NetProgram {
     }
     // elements hold tokens too
     for _ in 0..rng.small(2) {
-        prog.gstack.push(PeSpec { mode: rng.below(3) as u8, m: 1 + rng.below(3) as u32, r: 0, send_hook: 0, gate: 0 });
+        prog.gstack.push(PeSpec { mode: rng.below(3) as u8, m: 1 + rng.below(3) as u32, r: 0, send_hook: if rng.chance(1, 3) { 1 } else { 0 }, gate: rng.below(4) as u32 });
     }
     if rng.chance(1, 3) {
         let v = rng.usize(nmod);
